@@ -18,6 +18,7 @@ package main
 //	VT <u> <valKey> [mods]                                settle
 //	DA <u> <valKey> <valueLU> [mods]   DS ... / DT <u> <valKey> [mods]      delegation add / sub / settle
 //	RAW <u> <dataHex> [mods]                              staking-module tx with arbitrary payload bytes
+//	EV <valKey>                                           forged (really signed) double-sign evidence against validator <valKey> in this block
 //	mods: p=<gasPrice GLu> g=<gasLimit> n=<nonce offset, may be negative> v=<tx value LU>
 //
 // Address ids: u<i> user, c<i> coinbase of validator key i, m<i> main address of validator key i, k<i> contract,
@@ -132,6 +133,8 @@ func (w *world) addrOf(id string) (common.Address, error) {
 	return common.Address{}, fmt.Errorf("bad address id %q", id)
 }
 
+func (w *world) mainAddr(vk int) common.Address { return chainkit.Addr(chainkit.Key("val", vk)) }
+
 func (w *world) registerIDs() {
 	w.ids = map[common.Address]int{}
 	w.names = map[int]string{}
@@ -225,7 +228,7 @@ func (w *world) start() error {
 	}
 	cfg.Alloc[contractAddr(2)] = big.NewInt(12345) // the self-destruct contract holds a little value
 	for _, g := range w.gvals {
-		cfg.Vals = append(cfg.Vals, chainkit.ValSpec{Main: chainkit.Key("val", g.key), Bls: []byte{1, byte(g.key)},
+		cfg.Vals = append(cfg.Vals, chainkit.ValSpec{Main: chainkit.Key("val", g.key), Bls: blsPub(g.key),
 			Operator: chainkit.Addr(chainkit.Key("user", g.key%w.users)), Coinbase: chainkit.Addr(chainkit.Key("cb", g.key)),
 			Role: params.ValidatorRole(g.role), Token: g.token, Status: uint8(g.status)})
 	}
@@ -265,7 +268,7 @@ func parseOp(line string) (op, error) {
 			o.f = append(o.f, x)
 		}
 	}
-	need := map[string]int{"B": 1, "T": 3, "K": 4, "VC": 7, "VU": 5, "VD": 3, "VW": 4, "VS": 3, "VT": 2, "DA": 3, "DS": 3, "DT": 2, "RAW": 2}
+	need := map[string]int{"EV": 1, "B": 1, "T": 3, "K": 4, "VC": 7, "VU": 5, "VD": 3, "VW": 4, "VS": 3, "VT": 2, "DA": 3, "DS": 3, "DT": 2, "RAW": 2}
 	n, ok := need[o.kind]
 	if !ok || len(o.f) != n {
 		return o, fmt.Errorf("bad op %q", line)
@@ -353,7 +356,7 @@ func (w *world) makeTx(o op, nonces map[common.Address]uint64) (*builtTx, error)
 		vk := chainkit.Key("val", o.valKey())
 		role, _ := strconv.Atoi(o.f[2])
 		t := &staking.TxCreateValidator{Name: "v", OperatorAddress: from, Coinbase: chainkit.Addr(chainkit.Key("cb", o.valKey())),
-			MainPubKey: (chainkit.ValSpec{Main: vk}).MainPub(), BlsPubKey: []byte{1, byte(o.valKey())}, Value: bigOf(o.f[3]), Nonce: nonce,
+			MainPubKey: (chainkit.ValSpec{Main: vk}).MainPub(), BlsPubKey: blsPub(o.valKey()), Value: bigOf(o.f[3]), Nonce: nonce,
 			CommissionRate: u16(o.f[4]), RiskObligation: u16(o.f[5]), AcceptDelegation: u16(o.f[6]), Role: params.ValidatorRole(role)}
 		to, data = sm, encStaking(staking.ValidatorCreate, t)
 	case "VU":
